@@ -197,6 +197,7 @@ PROPS = {
             R("h26", "c14", "TestC14_Backlog", (48, 8, 240), (1600, 16, 10000)),
             R("h26", "c14", "TestC14_CloseDuringSync", (400, 8, 400), (40000, 16, 10000)),
             R("h26", "c14", "TestC14_ManyListeners", (300, 8, 400), (30000, 16, 10000)),
+            R("h26", "c14", "TestC14_BackToBack", (160, 8, 400), (16000, 16, 10000)),
         ],
     },
     "C15": {
